@@ -79,7 +79,7 @@ theorem blacklisted_alphabet (fp : Bytes) (hcls : ∀ c ∈ fp, c = 0 ∨ isClas
       · decide
       · obtain ⟨c, hc, rfl⟩ := List.mem_map.mp hx
         exact ⟨(class_upper c (hcls c hc)).1, (class_upper c (hcls c hc)).2.1⟩
-  unfold searchKeyword at hb
+  rw [searchKeyword_eq] at hb; unfold searchKeywordSpec at hb
   simp only [hg] at hb
   cases hl : lookupKw ((48 : UInt8) :: fp.map upperAscii).length (keyNat (48 :: fp.map upperAscii)) with
   | none => rw [hl] at hb; simp at hb
@@ -150,7 +150,7 @@ theorem fp_lookup (fp : Bytes) (hcls : ∀ c ∈ fp, c = 0 ∨ isClassU8 c = tru
       · decide
       · obtain ⟨c, hc, rfl⟩ := List.mem_map.mp hx
         exact ⟨(class_upper c (hcls c hc)).1, (class_upper c (hcls c hc)).2.1⟩
-  unfold searchKeyword at hb
+  rw [searchKeyword_eq] at hb; unfold searchKeywordSpec at hb
   simp only [hg] at hb
   cases hl : lookupKw ((48 : UInt8) :: fp.map upperAscii).length (keyNat (48 :: fp.map upperAscii)) with
   | none => rw [hl] at hb; simp at hb
